@@ -130,7 +130,7 @@ def pick_marks(rng, sim):
     return sim.close(m)
 
 
-def gen_case(rng, maxops, natural=None, f2=False, alloc=False):
+def gen_case(rng, maxops, natural=None, f2=False, alloc=False, win=False):
     where = rng.choice('MMTX')
     natural = (rng.random() < .25) if natural is None else natural
     mode = where + ('V' if natural else 'O') + ('R' if rng.random() < .3 else '')
@@ -161,12 +161,14 @@ def gen_case(rng, maxops, natural=None, f2=False, alloc=False):
             if stopped and not f2:
                 kind = 'raw'
             box = rng.random() < pbox
-            tok = NEWOP[(kind, box)] + str(nid)
+            # `~`: the destructor opens a stop/start window of its own (critical section) before anything else
+            tilde = '~' if win and rng.random() < .3 else ''
+            tok = NEWOP[(kind, box)] + str(nid) + tilde
             if alloc and kind != 'root' and rng.random() < .45:
                 # a destructor that allocates 1-3 managed objects nobody refers to
                 box = False
                 nch = rng.choice([1, 1, 2, 2, 3])
-                tok = ('a' if kind == 'managed' else 'q') + str(nid) + ''.join('+%d' % (cid + i) for i in range(nch))
+                tok = ('a' if kind == 'managed' else 'q') + str(nid) + tilde + ''.join('+%d' % (cid + i) for i in range(nch))
                 cid += nch
                 allocators.add(nid)
             marks = set()
@@ -634,7 +636,7 @@ def corr(case, impl, model):
 
 def nontrivial(case, impl):
     _, tr = split_trailer(impl)
-    return tr.get('ph', 0) + tr.get('th', 0) > 0
+    return tr.get('ph', 0) + tr.get('th', 0) + tr.get('win', 0) > 0     # win: a destructor's stop/start window inside a running sweep
 
 
 def in_stop_window(case):
@@ -695,6 +697,13 @@ CORPUS = [
     'MV|n1 n2 n3 u1 c t',
     'MO|n1 s w2 x2 S t',                            # a clean stop window
 ]
+# destructors that open a stop/start window of their own, called from a sweep's finaliser loop (C06-r7-2):
+# several unreachable objects in one sweep, some bracketing; explicit collection, threshold collection, teardown
+CORPUS += ['MO|n1~ n2 c t', 'MO|n1 n2~ c t', 'MO|n1~:1 n2~:1 n3:1,2 n4~:1,2,3 n5:1,2,3,4 n6~:1,2,3,4,5 c t',
+           'TO|n1~ n2 n3~ n4 t', 'XO|n1~ n2 n3~ n4 t', 'MO|n1~ n2~ n3 n4 n5 n6 n7 n8 t',
+           'MO|b1~ n2:1 l1,2 n3:1,2 n4~:1,2,3 c t', 'MO|b1~ n2:1 l1,2 d1 t', 'MO|W1~ n2 l1,2 n3:2 x1 t',
+           'MO|a1~+2000+2001 n2:1 n3~:1,2 c t', 'MOR|a1~+2000 a2~+2001+2002 n3 t',
+           'MO|n1~ s c S n2 t']
 # D22: destructors that allocate, nested collection inside the sweep
 CORPUS += ['MO|a1+2000+2001 a3+2002+2003:1 t', 'MVR|a1+2000 a2+2001+2002 t', 'MOR|w1 a2+2000+2001+2002 a3+2003:2 t',
            'MO|a1+101+102:1 a2+103+104:1 a3+105+106:1,2 a4+107+108:1,2,3 a5+109+110:1,2,3,4 a6+111+112:1,2,3,4,5 c6 d6 c t']
@@ -872,6 +881,9 @@ def run(ctx):
     cases += [gen_case(ctx.rng, 20, natural=False, f2=True) for _ in range(20 if quick else 500)]
     # destructors that allocate (modelled; correspondence except with really freed memory)
     cases += [gen_case(ctx.rng, 40, alloc=True) for _ in range(800 if quick else 10000)]
+    # destructors that bracket with stop/start (plain, Boxes = with a deletion, allocating ones), reached by
+    # threshold sweeps, explicit collections, deletes and teardown
+    cases += [gen_case(ctx.rng, 40, win=True, alloc=(i % 3 == 2)) for i in range(600 if quick else 10000)]
     hist = {}
     for c in cases:
         for t in model_ops(c)[1]:
